@@ -87,6 +87,11 @@ func typedConvCases(l *dval.Lines, tier string, r *rand.Rand, emit func(core.Cas
 	}
 	add("un", "union", src{"go": "int64", "v": "99999999999"}, false, "")
 	add("un", "union", src{"go": "float64", "v": "1.5"}, false, "")
+	// union { int32; string }: text that is not a number is the string, untouched
+	for _, t := range []string{"idle", " idle", "idle ", "  two words\t", "\u00a0caf\u00e9\u00a0", " ", "a b"} {
+		add("us", "union", s(t), true, t)
+	}
+	add("us", "union", src{"go": "int", "v": "7"}, true, "7")
 	// lists of strings and booleans
 	add("ls", "string-list", src{"go": "strings", "l": []string{"a", " b ", ""}}, true, "a\x1f b \x1f")
 	add("ls", "string-list", src{"go": "anys", "l": []string{"x", "y"}}, true, "x\x1fy")
